@@ -27,6 +27,10 @@ func kdfBy8(baseMD *digest, keyLen int, limit int) []byte {
 		t = 64 + 56 - remainlen
 		blocks = 2
 	}
+	if baseMD.nx+4 >= BlockSize {
+		// remaining data + counter already fill the first block, padding and length need a second one
+		blocks = 2
+	}
 	len <<= 3
 
 	var ct uint32 = 1
